@@ -132,7 +132,11 @@ class ParamsSuite(ProgBaseSuite):
                   "dst_label": rng.choice(["P", "MTP 1"]), "dst_start": ds, "dst_end": de, "volume": v, "exclude": ex if rng.random() < 0.9 else None,
                   "multi_disp": rng.choice([1, 2, 6, 12, 100]), "diti_reuse": rng.choice([1, 3]), "liquid_class": rng.choice(LIQS),
                   "direction": rng.choice(["left_to_right", "right_to_left"])}
-            if op["exclude"] and rng.random() < 0.4:
+            if op["exclude"] and rng.random() < 0.12:
+                # an entry that is not a well number (truncating or parsing it would silently exclude another well)
+                op["exclude"] = list(op["exclude"])
+                op["exclude"][rng.randrange(len(op["exclude"]))] = {"bad": rng.choice(["float:%d.5" % (ds + 1), "str:%d" % (ds + 1), "none"])}
+            elif op["exclude"] and rng.random() < 0.4:
                 op["exclude_type"] = rng.choice(["tuple", "set", "iter", "gen"])
                 if op["exclude_type"] == "set":
                     op["exclude"] = list(dict.fromkeys(op["exclude"]))  # a set holds each well once: that is the argument
@@ -175,6 +179,17 @@ class ParamsSuite(ProgBaseSuite):
                                   "volume": {"int": v}, "exclude": None, "multi_disp": md, "diti_reuse": 1, "liquid_class": "Water", "direction": "left_to_right"})
                 for dev in ("evo", "fluent"):
                     cases.append({"dev": dev, "wl": wlcfg(random.Random(e), fs(mvq)), "labware": [], "ops": ops_b, "family": "params"})
+        # ---- max_volume re-assigned between calls (oracle-only): every call is judged by the value in force when it runs
+        for m1, m2, v in (("950", "200", 300), ("200", "950", 300), ("1000", "375/2", 190), ("50", "500", 75)):
+            def rg(vol, md=6):
+                return {"op": "reagent", "src_label": "T", "src_start": 1, "src_end": 8, "dst_label": "P", "dst_start": 1, "dst_end": 12,
+                        "volume": {"int": vol}, "exclude": None, "multi_disp": md, "diti_reuse": 1, "liquid_class": "Water", "direction": "left_to_right"}
+            ops_r = [{"op": "aspirate_well", "rack_label": "P", "position": 1, "volume": str(v), "kw": {}}, rg(v), {"op": "set_max", "v": m2},
+                     {"op": "aspirate_well", "rack_label": "P", "position": 1, "volume": str(v), "kw": {}},
+                     {"op": "dispense_well", "rack_label": "P", "position": 2, "volume": fs(Fraction(m2) + Fraction(1, 8)), "kw": {}},
+                     {"op": "dispense_well", "rack_label": "P", "position": 2, "volume": m2, "kw": {}}, rg(v), rg(v // 3, 100)]
+            for dev in ("evo", "fluent"):
+                cases.append({"dev": dev, "wl": {"max_volume": m1, "max_int": False, "auto_split": True, "diti_mode": False}, "labware": [], "ops": ops_r, "family": "params"})
         return cases
 
     def nontrivial(self, case, obs):
@@ -227,6 +242,13 @@ class EvoCmdSuite(ProgBaseSuite):
                         rows[1] = rows[0]
                     elif mode < 0.16 and nw > 1:
                         tips[1] = tips[0]
+                    same_perm = None
+                    if 0.16 <= mode < 0.22 and nw > 1:
+                        # wells, tips (and below: volumes) permuted by one and the same permutation: a "matching" but not ascending call
+                        same_perm = list(range(nw))
+                        rng.shuffle(same_perm)
+                        rows = [rows[j] for j in same_perm]
+                        tips = [tips[j] for j in same_perm]
                     wells = [wid(rr, col) for rr in rows]
                     if rng.random() < 0.04 and C > 1 and nw > 1:
                         wells[-1] = wid(rows[-1], (col + 1) % C)
